@@ -101,7 +101,8 @@ def worker(cfg, tier='quick'):
             col, cfg + '#getdef', paths, qv, [c for c in qc if len(c) == qd],
             lambda loc: (dict(fresh_und.get_deformation(loc, name, **kw)),
                          fresh_und.qubit_axis(loc) if name == 'XZZX' and axis else None),
-            lambda v, sub: (dict(v[0]), lt.concretise(v[1], sub)))
+            lambda v, sub: (dict(v[0]), lt.concretise(v[1], sub)),
+            impure_oid='C08/get_deformation/is-a-function-of-the-location')
         wit_q = lambda m, qv=qv: dict(q=[m.eval(v, model_completion=True).as_long() for v in qv])
         bad_bij, bad_inv, bad_spec = [], [], []
         for p in paths:
@@ -310,6 +311,14 @@ def replay(path):
     with open(path) as f:
         d = json.load(f)
     w, oid, cfg = d['witness'], d['oid'], d['config']
+    if isinstance(w, dict) and w.get('impure'):
+        # the real function returned two different values for the same argument: re-run the worker in this fresh
+        # interpreter; the obligation must be reported again
+        res = worker(cfg)
+        bad = any(o['oid'] == oid and o['verdict'] == 'sat' for o in res['obs'])
+        print('impure function at', w.get('location'))
+        print('REPLAY', 'reproduced' if bad else 'not-reproduced', oid, cfg)
+        return 0
     bad = False
     try:
         if cfg.startswith('apply_deformation'):
